@@ -5,6 +5,7 @@ package main
 import (
 	"fmt"
 	"go/types"
+	"golang.org/x/tools/go/ssa"
 	"math"
 	"math/big"
 	"strings"
@@ -154,6 +155,13 @@ func (m *Machine) ev(env *Env, x *Expr) CV {
 		}
 		if fn, ok := m.prelude.Funcs[x.Name]; ok && len(fn.Params) == 0 {
 			return CV{V: Sym(fn.Name, fn.Ret), Signed: true}
+		}
+		// a package-level variable of the package under verification (read-only by the package frame)
+		if mem, ok := m.pkg.Members[x.Name]; ok {
+			if g, ok := mem.(*ssa.Global); ok {
+				pt := g.Type().(*types.Pointer).Elem()
+				return CV{V: m.load(env.cur, m.globalPtr(g), pt), Signed: isSigned(pt), Typ: pt}
+			}
 		}
 		m.everr("unknown identifier %s", x.Name)
 	case "sel":
